@@ -2,7 +2,7 @@
    canonical form of snapshots, model run.  The specification oracles live in
    Model/CopySpec.v; kinds are assembled at the end of this file and in C15G.v. *)
 From Coq Require Import List NArith Bool.
-From FS Require Import Sx Model.Path Model.Stat Model.Tree Model.SymMode Model.Copier.
+From FS Require Import Sx Model.Path Model.Stat Model.Tree Model.SymMode Model.Copier Model.CopySpec.
 Import ListNotations.
 Open Scope N_scope.
 Open Scope bool_scope.
@@ -166,20 +166,34 @@ Record case := {
   k_src : snode; k_dst : fsys; k_dst0 : snode; k_srcarg : bytes; k_dstarg : bytes; k_opts : copts; k_second : bool
 }.
 
+(* views list the children of every directory in bytewise name order, without duplicates
+   (os.ReadDir / filepath.Walk order) *)
+Fixpoint names_sorted (l : list snode) : bool :=
+  match l with
+  | a :: ((b :: _) as r) => (match cmp_bytes (sname a) (sname b) with Lt => true | _ => false end) && names_sorted r
+  | _ => true
+  end.
+Fixpoint tree_sorted (n : snode) {struct n} : bool :=
+  match n with
+  | SNode _ _ _ kids =>
+    names_sorted kids && (fix go (l : list snode) : bool := match l with [] => true | k :: r => tree_sorted k && go r end) kids
+  end.
+
 Definition dec_case (input : sx) : option case :=
   match input with
   | SL [sv; dv; SB src; SB dst; os; sec] =>
     sv' <- dec_view sv ;; dv' <- dec_view dv ;; o <- dec_opts os ;; sec' <- sx_bool sec ;;
     let '(sr, _) := sroot_of_view sv' in
     let '(dr, nxt) := sroot_of_view dv' in
+    if negb (tree_sorted sr && tree_sorted dr) then None else
     Some {| k_src := sr; k_dst := fsys_of_sroot dr nxt; k_dst0 := dr; k_srcarg := src; k_dstarg := dst;
             k_opts := o; k_second := sec' |}
   | _ => None
   end.
 
-Definition model_run (c : case) (fs : fsys) : fsys * sx :=
+Definition model_run (c : case) (fs : fsys) : fsys * sx * bool :=
   let '(st, e) := copy_top (k_opts c) all_selected (k_src c) fs (k_srcarg c) (k_dstarg c) in
-  (c_fs st, SL [SN (err_class e); enc_notifs (c_notifs st); enc_entries (fs_list (c_fs st))]).
+  (c_fs st, SL [SN (err_class e); enc_notifs (c_notifs st); enc_entries (fs_list (c_fs st))], c_stale st).
 
 (* canonical form of one implementation run *)
 Definition canon_run (r : sx) : option sx :=
@@ -188,10 +202,19 @@ Definition canon_run (r : sx) : option sx :=
   | _ => None
   end.
 
-Definition model_output (c : case) : sx :=
-  let '(fs1, r1) := model_run c (k_dst c) in
+Definition model_output2 (c : case) : sx * bool :=
+  let '(fs1, r1, st1) := model_run c (k_dst c) in
   let src := enc_entries (s_flat [] (k_src c)) in
-  if k_second c then let '(_, r2) := model_run c fs1 in SL [r1; r2; src] else SL [r1; src].
+  if k_second c then let '(_, r2, st2) := model_run c fs1 in (SL [r1; r2; src], st1 || st2) else (SL [r1; src], st1).
+Definition model_output (c : case) : sx := fst (model_output2 c).
+
+(* known-finding signature, computed from the case by the model: the copier's inode map
+   (source inode -> first destination PATH) went stale because a later wildcard match
+   overwrote that path; the next member of the link group is linked to the wrong file *)
+Definition sig_stale : bytes :=
+  [104;97;114;100;108;105;110;107;45;102;105;114;115;116;45;99;111;112;121;45;111;118;101;114;119;114;105;116;116;101;110].
+Definition with_sig (c : case) (info : sx) : sx :=
+  if snd (model_output2 c) then SL [SL [SB [115;105;103]; SB sig_stale]; info] else info.
 
 Definition canon_output (impl : sx) : option sx :=
   match impl with
@@ -221,11 +244,174 @@ Definition out_of_scope (m : sx) : bool :=
   | _ => false
   end.
 
-(* TEMP: model comparison only *)
+(* ---- specification oracles, evaluated on what the IMPLEMENTATION left on disk ---- *)
+Definition elist := list (list bytes * N * dent).
+Definition view_of_list (l : elist) : view :=
+  fun p => assoc_path p (map (fun e => (fst (fst e), (snd (fst e), snd e))) l).
+Definition paths_of_list (l : elist) : list (list bytes) := map (fun e => fst (fst e)) l.
+
+Definition dec_run (r : sx) : option (N * sx * elist) :=
+  match r with
+  | SL [SN cls; ns; snap] => es <- dec_snapshot snap ;; Some (cls, ns, es)
+  | _ => None
+  end.
+
+Definition enc_spec_notifs (l : list (list bytes * bool)) : sx :=
+  SL (map (fun pb => SL [SB (notif_path (fst pb)); of_bool (snd pb); SN 0]) l).
+
+Record ck := { ck_ok : bool; ck_skip : bool; ck_landings : option (list (list bytes)); ck_merged : list bool; ck_info : sx }.
+Definition tag (s : bytes) (rest : list sx) : sx := SL (SB s :: rest).
+(* ascii tags *)
+Definition t_overlay : bytes := [111;118;101;114;108;97;121].          (* "overlay" *)
+Definition t_keys : bytes := [105;110;111;100;101;115].                 (* "inodes" *)
+Definition t_notifs : bytes := [110;111;116;105;102;115].               (* "notifs" *)
+Definition t_class : bytes := [99;108;97;115;115].                      (* "class" *)
+Definition t_obstacle : bytes := [111;98;115;116;97;99;108;101].        (* "obstacle" *)
+Definition t_iso : bytes := [105;115;111].                              (* "iso" *)
+Definition t_idem : bytes := [105;100;101;109].                         (* "idem" *)
+Definition t_source : bytes := [115;111;117;114;99;101].                (* "source" *)
+Definition t_second : bytes := [115;101;99;111;110;100].                (* "second" *)
+
+Definition first_bad {A} (f : A -> bool) (l : list A) : option A := find (fun a => negb (f a)) l.
+
+(* one application: [before]/[after] are snapshots around it *)
+Definition check_run (c : case) (real_inos : bool) (before after : elist) (cls : N) (ns : sx) : ck :=
+  let Vb := view_of_list before in
+  let Va := view_of_list after in
+  match overlay_all (k_opts c) (k_src c) Vb (k_srcarg c) (k_dstarg c) with
+  | inr XScope => {| ck_ok := true; ck_skip := true; ck_landings := None; ck_merged := []; ck_info := SL [] |}
+  | inr (XOther ec) =>
+    {| ck_ok := N.eqb cls ec; ck_skip := false; ck_landings := None; ck_merged := []; ck_info := tag t_class [SN ec; SN cls] |}
+  | inr (XConflict ec p bef) =>
+    let same := match Va p, bef with
+                | Some (i, d), Some e => dent_match d e && (negb real_inos || match x_key e with KDst j => N.eqb i j | _ => true end)
+                | _, _ => false
+                end in
+    {| ck_ok := N.eqb cls ec && same; ck_skip := false; ck_landings := None; ck_merged := [];
+       ck_info := if N.eqb cls ec then tag t_obstacle [SB (joinc p)] else tag t_class [SN ec; SN cls] |}
+  | inl r =>
+    let ps := sort_paths (paths_of_list before ++ paths_of_list after ++ xr_paths r) in
+    let X := xr_view r in
+    if negb (N.eqb cls 0) then {| ck_ok := false; ck_skip := false; ck_landings := None; ck_merged := []; ck_info := tag t_class [SN 0; SN cls] |}
+    else match first_bad (match_at Va X) ps with
+    | Some p => {| ck_ok := false; ck_skip := false; ck_landings := None; ck_merged := []; ck_info := tag t_overlay [SB (joinc p)] |}
+    | None =>
+      match first_bad (fun p => forallb (keys_at Va X p) ps) ps with
+      | Some p => {| ck_ok := false; ck_skip := false; ck_landings := None; ck_merged := []; ck_info := tag t_keys [SB (joinc p)] |}
+      | None =>
+        let en := enc_spec_notifs (xr_notifs r) in
+        {| ck_ok := sx_eqb en ns; ck_skip := false; ck_landings := Some (xr_landings r); ck_merged := xr_merged r; ck_info := tag t_notifs [en] |}
+      end
+    end
+  end.
+
+(* C13: the explicit relation between the source tree and what is below the landing path,
+   for a single (non-wildcard) source *)
+Definition check_iso (c : case) (after : elist) (landings : option (list (list bytes))) (merged : list bool) : bool :=
+  if o_wild (k_opts c) then true else
+  match landings, s_resolve (k_src c) (rooted (k_srcarg c)),
+        (match o_modestr (k_opts c) with [] => Some None | s => option_map Some (parse_mode s) end) with
+  | Some [L], inl sn, Some ms =>
+    let rs := s_paths [] sn ++ flat_map (fun p => match strip_prefix L p with Some r => [r] | None => [] end)
+                                        (paths_of_list after) in
+    tree_iso_b (k_opts c) ms (match merged with [b] => b | _ => false end) sn L (view_of_list after) rs
+  | _, _, _ => true
+  end.
+
+(* C15: nothing changes when a successful copy is repeated (inode identities are not compared;
+   a directory's mtime may be "now" after the second application) *)
+Definition idem_dent (d1 d2 : dent) : bool :=
+  N.eqb (d_mode d1) (d_mode d2) && N.eqb (d_uid d1) (d_uid d2) && N.eqb (d_gid d1) (d_gid d2)
+  && (N.eqb (d_mtime d1) (d_mtime d2) || (is_dir d2 && N.eqb (d_mtime d2) NOW))
+  && N.eqb (d_rdev d1) (d_rdev d2) && bytes_eqb (d_target d1) (d_target d2)
+  && xattrs_eqb (d_xattrs d1) (d_xattrs d2) && bytes_eqb (d_content d1) (d_content d2).
+
+Definition idem_at (V1 V2 : view) (p : list bytes) : bool :=
+  match V1 p, V2 p with
+  | Some (_, d1), Some (_, d2) => idem_dent d1 d2
+  | None, None => true
+  | _, _ => false
+  end.
+
+(* inode partition of non-directories is the same before and after *)
+Definition idem_keys (V1 V2 : view) (p q : list bytes) : bool :=
+  match V1 p, V1 q, V2 p, V2 q with
+  | Some (i1, d1), Some (j1, e1), Some (i2, _), Some (j2, _) =>
+    if is_dir d1 || is_dir e1 then true else Bool.eqb (N.eqb i1 j1) (N.eqb i2 j2)
+  | _, _, _, _ => true
+  end.
+
+Definition same_state_b (V1 V2 : view) (ps : list (list bytes)) : bool :=
+  forallb (idem_at V1 V2) ps && forallb (fun p => forallb (idem_keys V1 V2 p) ps) ps.
+
+Fixpoint paths_eqb (a b : list (list bytes)) : bool :=
+  match a, b with
+  | [], [] => true
+  | x :: a', y :: b' => path_eqb x y && paths_eqb a' b'
+  | _, _ => false
+  end.
+
+Definition src_unchanged (c : case) (s : sx) : bool :=
+  match dec_snapshot s with
+  | Some es => sx_eqb (enc_entries es) (enc_entries (s_flat [] (k_src c)))
+  | None => false
+  end.
+
+Definition initial_list (c : case) : elist := s_flat [] (k_dst0 c).
+
+(* kind 1301 (C13): one application *)
 Definition run_1301 (input impl : sx) : sx :=
   match dec_case input, canon_output impl with
   | Some c, Some ci =>
     let m := model_output c in
-    if out_of_scope m then v_ok else verdict m ci true (SL [])
+    if out_of_scope m then v_ok else
+    match impl with
+    | SL [r1; s] =>
+      match dec_run r1 with
+      | Some (cls, ns, after) =>
+        let k := check_run c false (initial_list c) after cls ns in
+        if ck_skip k then v_ok else
+        if negb (src_unchanged c s) then verdict m ci false (with_sig c (tag t_source []))
+        else if negb (ck_ok k) then verdict m ci false (with_sig c (ck_info k))
+        else if negb (check_iso c after (ck_landings k) (ck_merged k)) then verdict m ci false (with_sig c (tag t_iso []))
+        else verdict m ci true (SL [])
+      | None => v_malformed
+      end
+    | _ => v_malformed
+    end
+  | _, _ => v_malformed
+  end.
+
+(* kind 1501 (C15): two applications *)
+Definition run_1501 (input impl : sx) : sx :=
+  match dec_case input, canon_output impl with
+  | Some c, Some ci =>
+    let m := model_output c in
+    if out_of_scope m then v_ok else
+    match impl with
+    | SL [r1; r2; s] =>
+      match dec_run r1, dec_run r2 with
+      | Some (cls1, ns1, a1), Some (cls2, ns2, a2) =>
+        let k1 := check_run c false (initial_list c) a1 cls1 ns1 in
+        let k2 := check_run c true a1 a2 cls2 ns2 in
+        if ck_skip k1 || ck_skip k2 then v_ok else
+        if negb (src_unchanged c s) then verdict m ci false (with_sig c (tag t_source []))
+        else if negb (ck_ok k1) then verdict m ci false (with_sig c (ck_info k1))
+        else if negb (ck_ok k2) then verdict m ci false (with_sig c (tag t_second [ck_info k2]))
+        else
+          let stable := match ck_landings k1, ck_landings k2 with
+                        | Some l1, Some l2 => paths_eqb l1 l2
+                        | Some l1, None => false
+                        | _, _ => false
+                        end in
+          let idem := if N.eqb cls1 0 && N.eqb cls2 0 && stable
+                      then same_state_b (view_of_list a1) (view_of_list a2)
+                             (sort_paths (paths_of_list a1 ++ paths_of_list a2))
+                      else true in
+          if idem then verdict m ci true (SL []) else verdict m ci false (with_sig c (tag t_idem []))
+      | _, _ => v_malformed
+      end
+    | _ => v_malformed
+    end
   | _, _ => v_malformed
   end.
